@@ -91,6 +91,12 @@ theorem strip_sublist (buf : List Byte) (h : 0 ∈ buf) :
     ∃ out, stripComments buf = .ok out ∧ out.Sublist (cstr buf) :=
   ⟨_, strip_spec buf h, stripSpec_sublist _ _⟩
 
+/-- a text without any `/` (in particular JSON without comments and without `/` in strings) is
+    returned unchanged -/
+theorem strip_no_slash_id (buf : List Byte) (h : 0 ∈ buf) (hs : 47 ∉ cstr buf) :
+    stripComments buf = .ok (cstr buf) := by
+  rw [strip_spec buf h, stripSpec_no_slash _ _ (Or.inl rfl) hs]
+
 -- non-vacuity / the four repaired inputs: `/** x */1`, `"a\nb // x"`, `"\\" // c`
 example : stripComments [47, 42, 42, 32, 120, 32, 42, 47, 49, 0] = .ok [49] := by decide
 example : stripComments [34, 97, 92, 110, 98, 32, 47, 47, 32, 120, 34, 0]
